@@ -24,3 +24,7 @@ macro_rules! i18n_path {
 pub mod __private {
     pub use crate::routing::make_i18n_segment;
 }
+
+#[cfg(feature = "verif_hooks")]
+#[doc(hidden)]
+pub use routing::verif;
